@@ -11,9 +11,9 @@ PROPERTY = "C08"
 import glob as _glob
 import os as _os
 
-LEAN_TARGETS = ["VectorModel.Gen.Sym.All", "VectorModel.Props.C08"]
+LEAN_TARGETS = ["VectorModel.Gen.Sym.All", "VectorModel.Props.C08", "VectorModel.Props.MethodBackends"]
 # property theorems: the hand/script-written ones and the congruence theorems the translator generates for the symbolic copy
-THEOREM_FILES = ["VectorModel/Props/C08.lean"] + sorted(
+THEOREM_FILES = ["VectorModel/Props/C08.lean", "VectorModel/Props/MethodBackends.lean"] + sorted(
     _os.path.relpath(f, _os.path.join(C.VERIF, "lean")) for f in _glob.glob(_os.path.join(C.VERIF, "lean", "VectorModel", "Gen", "Sym", "*.lean"))
     if not f.endswith("All.lean"))
 NOT_COVERED = ["SymPy's own constructors and automatic simplification (Add, Pow, atan2, ...): trusted, sampled by .subs().evalf(40)",
@@ -207,6 +207,34 @@ def run(ctx):
                     problems.append((f"raises:{name}", f"{name} on {fl}:{sig} x g:{sig2}: {type(e).__name__}: {str(e)[:100]}"))
                     continue
                 compare((name, fl, sig, sig2, p, p2), gs, gn, subs2, mp, problems, scale)
+            # HISTORIES: a result that passes stored coordinates of its operand through (rotateZ on 3D/4D, rotateX on 4D, ...) and an
+            # in-place operator on either of the two afterwards - both vectors are compared with the numeric twins after every step
+            if len(sig) >= 2 and sig[-1] != "tau":
+                a_s, a_n = sympy.Float("0.25", 50), mp.mpf("0.25")
+                firsts = [("rotateZ", lambda v, a: v.rotateZ(a))] + ([("rotateX", lambda v, a: v.rotateX(a)), ("rotateY", lambda v, a: v.rotateY(a))] if len(sig) == 3 else []) + \
+                    [("to_Vector%dD" % (len(sig) + 1), lambda v, a: getattr(v, "to_Vector%dD" % (len(sig) + 1))()), ("unary +", lambda v, a: +v)]
+                seconds = [("*= k", lambda x, o, k: x.__imul__(k)), ("/= k", lambda x, o, k: x.__itruediv__(k)), ("+= w", lambda x, o, k: x.__iadd__(o))]
+                for f1name, f1 in firsts:
+                    for f2name, f2 in seconds:
+                        for target in ("result", "operand"):
+                            if f1name in ("unary +",) or (f1name.startswith("to_Vector") and True):
+                                # `+v` and to_Vector<own dimension>D return the operand ITSELF in the unchanged library: the alias is documented,
+                                # an in-place operator on it is an in-place operator on the operand (C16 exempts it) - numeric twin behaves alike
+                                pass
+                            n += 1
+                            try:
+                                sv, _ = sympy_vec(fl, sig, 1, keywords=True)
+                                nv = C.from_cart(fam, fl, sig, [mp.mpf(x) for x in p], mp)
+                                sr, nr = f1(sv, a_s), f1(nv, a_n)
+                                if target == "result":
+                                    f2(sr, sw, ks), f2(nr, nw, kn)
+                                else:
+                                    f2(sv, sw, ks), f2(nv, nw, kn)
+                            except Exception as e:  # noqa: BLE001
+                                problems.append((f"raises:history:{f1name}", f"{f1name} then {f2name} on the {target} ({fl}:{sig}): {type(e).__name__}: {str(e)[:100]}"))
+                                continue
+                            compare((f"history:{f1name} then {f2name} on the {target}: OPERAND", fl, sig, sig2, p, p2), sv, nv, subs2, mp, problems, scale)
+                            compare((f"history:{f1name} then {f2name} on the {target}: RESULT", fl, sig, sig2, p, p2), sr, nr, subs2, mp, problems, scale)
             if len(samples) < 3:
                 samples.append({"sig": sig, "flavor": fl, "point": p, "example": f"{m}: {str(gs)[:120]}"})
     return problems, {"expressions_evaluated": n}, samples
